@@ -8,10 +8,11 @@ def part(bin, sub, q=1, t=16, tq=120, tt=1800, tiers=("quick", "thorough"), args
 
 PLAN = {
     "C01": {
-        "pkg": ["vts", "vh"],
+        "pkg": ["vts", "vh", "vsy"],
         "level": "model_checking",
         "parts": [part("mc_proto", "c01", q=4, t=16), part("mc_server", "c01", q=16, t=16, tq=200, tt=2400),
-                  part("mc_server", "conf", q=2, t=8, tq=200, tt=1200, args={"quick": ["--prop", "C01"], "thorough": ["--prop", "C01"]})],
+                  part("mc_server", "conf", q=2, t=8, tq=200, tt=1200, args={"quick": ["--prop", "C01"], "thorough": ["--prop", "C01"]}),
+                  part("mc_sync", "c01s", q=16, t=16, tq=200, tt=2400)],
         "assumptions": ["in-memory reader/writer never fail", "test service TS is the only registered interface"],
     },
     "C02": {
